@@ -1,12 +1,16 @@
 import FiberModel.Basic
+import FiberModel.C19.Url
 /-
-C19 — model of middleware/cors (cors.go `New` and the returned handler, utils.go `subdomain.match`).
+C19 — model of middleware/cors (cors.go `New` and the returned handler, utils.go `normalizeOrigin`
+and `subdomain.match`) plus the one piece of fiber's Ctx it leans on for `Vary` (ctx.go `Append`).
 
-Transcribed from the code that exists. `url.Parse` inside `normalizeOrigin` is *not* modelled: the
-model's `normalizeOrigin` covers configuration origins of the shape `scheme://host[:port][/]`
-(what the harness generates and what the documentation asks for); other shapes are reported by the
-driver as outside the modelled domain. `AllowOriginsFunc` is a parameter (a predicate on the
-lower-cased origin); `Next` is a per-request flag (`Request.skip`).
+Transcribed from the code that exists. `url.Parse` inside `normalizeOrigin` is the transcription in
+`Url.lean` (every shape: upper case, userinfo, IPv6 literals, ports, paths, queries, fragments,
+escapes, control bytes). The one library function that stays outside is `strings.ToLower` on
+NON-ASCII text (Unicode tables): `toLower` below is Go's ASCII fast path, exact whenever the text is
+ASCII; the driver refuses (outside-domain) any case in which a lower-cased string has a byte ≥ 0x80.
+`AllowOriginsFunc` is a parameter (a function on the lower-cased origin that may also panic); `Next`
+is a parameter (a predicate on the request, or nil).
 -/
 namespace C19
 open B
@@ -20,10 +24,21 @@ structure Subdomain where
 def Subdomain.match (s : Subdomain) (o : Bytes) : Bool :=
   decide (o.length ≥ s.pre.length + s.suf.length) && hasPrefix o s.pre && hasSuffix o s.suf
 
-/-- The user-facing configuration (cors.Config), `AllowOriginsFunc` as an optional predicate. -/
+structure Request where
+  method : Bytes
+  origin : Bytes            -- raw Origin header ("" = absent)
+  acrMethod : Bytes         -- Access-Control-Request-Method
+  acrHeaders : Bytes        -- Access-Control-Request-Headers
+  acrPrivate : Bytes        -- Access-Control-Request-Private-Network
+  skip : Bool := false      -- the request carries what the harness's `Next` looks for (X-Skip: 1)
+  priorVary : Bytes := []   -- response `Vary` already set by an earlier middleware ("" = absent)
+  afterVary : List Bytes := []  -- fields the downstream handler passes to `c.Vary(...)`
+
+/-- The user-facing configuration (cors.Config). `allowFunc o = none`: the function panics on `o`. -/
 structure Config where
+  next : Option (Request → Bool) := none
   allowOrigins : List Bytes
-  allowFunc : Option (Bytes → Bool)
+  allowFunc : Option (Bytes → Option Bool)
   allowMethods : List Bytes
   allowHeaders : List Bytes
   exposeHeaders : List Bytes
@@ -38,30 +53,39 @@ structure Built where
   allowAll : Bool               -- allowAllOrigins
   cfg : Config
 
-/-- `strings.ToLower(scheme + "://" + host)` for origins of shape `scheme://host[:port][/]`;
-    `none` = `normalizeOrigin` reports invalid (or the shape is outside the modelled domain). -/
-def normalizeOrigin (o : Bytes) : Option Bytes :=
-  match indexOf o (b "://") with
-  | none => none
-  | some i =>
-    let scheme := o.take i
-    let rest := o.drop (i + 3)
-    let host := if rest.getLast? = some 47 then rest.dropLast else rest
-    if scheme.isEmpty || host.isEmpty || host.contains 47 || host.contains 42 || host.contains 63
-       || host.contains 35 || host.contains 32 then none
-    else some (toLower (scheme ++ b "://" ++ host))
+/-- `strings.ToLower` is applied to ASCII text only inside the modelled domain. -/
+def isASCII (s : Bytes) : Bool := s.all (· < 128)
 
-/-- The loop over `cfg.AllowOrigins` in `New` (first `*` stops the loop). `none` = panic. -/
+/-- utils.go `normalizeOrigin`: `none` = `(false, "")`. -/
+def normalizeOrigin (o : Bytes) : Option Bytes :=
+  match Url.parse o with
+  | none => none
+  | some u =>
+    if u.host.contains 42 then none
+    else if u.host = [] || (u.path ≠ [] && u.path ≠ b "/") || u.rawQuery ≠ [] || u.fragment ≠ [] then none
+    else some (toLower (u.scheme ++ b "://" ++ u.host))
+
+/-- `New`, wildcard entry, behind `normalizeOrigin`: the normalised origin is split behind ITS OWN
+    `://`, and what follows must still start with the dot (else panic). -/
+def wildcardSplit (trimmed : Bytes) : Option (Bytes × Bytes) :=
+  match normalizeOrigin trimmed with
+  | none => none
+  | some n =>
+    match indexOf n (b "://") with
+    | none => none
+    | some j => if (n.drop (j + 3)).head? = some 46 then some (n.take (j + 3), n.drop (j + 3)) else none
+
+/-- The loop over `cfg.AllowOrigins` in `New` (first `*` stops the loop). `none` = panic.
+    Wildcard entry `…://*.…`: the `*` is cut out, the rest trimmed, normalised and split. -/
 def buildLoop : List Bytes → List Bytes → List Subdomain → Option (List Bytes × List Subdomain × Bool)
   | [], os, ss => some (os, ss, false)
   | o :: rest, os, ss =>
     if o = b "*" then some (os, ss, true)
     else match indexOf o (b "://*.") with
       | some i =>
-        let trimmed := trim (o.take (i + 3) ++ o.drop (i + 4)) 32
-        match normalizeOrigin trimmed with
+        match wildcardSplit (trim (o.take (i + 3) ++ o.drop (i + 4)) 32) with
         | none => none
-        | some n => buildLoop rest os (ss ++ [{ pre := n.take (i + 3), suf := n.drop (i + 3) }])
+        | some (pre, suf) => buildLoop rest os (ss ++ [{ pre := pre, suf := suf }])
       | none =>
         match normalizeOrigin (trim o 32) with
         | none => none
@@ -89,22 +113,15 @@ def buildLax (cfg : Config) : Option Built :=
 def build (cfg : Config) (defaultMethods : List Bytes) : Option Built :=
   buildCore (if cfg.allowMethods.isEmpty then { cfg with allowMethods := defaultMethods } else cfg)
 
-structure Request where
-  method : Bytes
-  origin : Bytes            -- raw Origin header ("" = absent)
-  acrMethod : Bytes         -- Access-Control-Request-Method
-  acrHeaders : Bytes        -- Access-Control-Request-Headers
-  acrPrivate : Bytes        -- Access-Control-Request-Private-Network
-  skip : Bool := false      -- `cfg.Next != nil && cfg.Next(c)`: the middleware steps aside
-
-/-- Everything the property talks about in the response. `vary` is the list of names passed to
-    `c.Vary` in call order. -/
+/-- Everything the property talks about in the response. `vary` is the raw `Vary` response header
+    once the request is finished ("" = absent). -/
 structure Response where
   next : Bool                       -- the protected handler ran
   status204 : Bool                  -- SendStatus(204)
+  panicked : Bool := false          -- `AllowOriginsFunc` panicked: nothing below is sent
   acao : Option Bytes := none
   acac : Bool := false              -- Access-Control-Allow-Credentials: true
-  vary : List Bytes := []
+  vary : Bytes := []
   allowMethods : Option Bytes := none
   allowHeaders : Option Bytes := none
   maxAge : Option Bytes := none
@@ -112,17 +129,33 @@ structure Response where
   privateNet : Bool := false
   deriving Repr, DecidableEq
 
-/-- The origin decision of the handler: the value of `allowOrigin` ("" = none). -/
-def allowOrigin (bt : Built) (o : Bytes) : Bytes :=
-  if bt.allowAll then b "*"
+/-- `cfg.Next != nil && cfg.Next(c)` -/
+def skipped (cfg : Config) (q : Request) : Bool :=
+  match cfg.next with
+  | some f => f q
+  | none => false
+
+/-- The list part of the origin decision: exact entries first, then wildcard entries. -/
+def listAllows (bt : Built) (o : Bytes) : Bool :=
+  bt.origins.contains o || bt.subs.any (·.match o)
+
+/-- The origin decision of the handler: the value of `allowOrigin` ("" = none);
+    `none` = `AllowOriginsFunc` was consulted and panicked. The function is consulted only when
+    neither the wildcard nor the lists set a value. -/
+def allowOrigin (bt : Built) (o : Bytes) : Option Bytes :=
+  if bt.allowAll then some (b "*")
   else
     let a := if bt.origins.contains o then o else []
     let a := if a.isEmpty then (if bt.subs.any (·.match o) then o else []) else a
     if a.isEmpty then
       match bt.cfg.allowFunc with
-      | some f => if f o then o else []
-      | none => []
-    else a
+      | some f =>
+        match f o with
+        | none => none
+        | some true => some o
+        | some false => some []
+      | none => some []
+    else some a
 
 /-- cors.go `setSimpleHeaders`, first block: (Access-Control-Allow-Origin, Allow-Credentials). -/
 def simpleAcao (cfg : Config) (allow : Bytes) : Option Bytes × Bool :=
@@ -149,31 +182,49 @@ def vACRM : Bytes := b "Access-Control-Request-Method"
 def vACRH : Bytes := b "Access-Control-Request-Headers"
 def vACRPN : Bytes := b "Access-Control-Request-Private-Network"
 
-/-- The returned handler. -/
+/-- ctx.go `Append(field, value)` for one value, on the current header text `h` ("" = absent):
+    the value is added behind `", "` unless `h` is it, starts with `value,`, ends with ` value`
+    or contains ` value,`. -/
+def appendOne (h v : Bytes) : Bytes :=
+  if h = [] then v
+  else if h ≠ v && !hasPrefix h (v ++ [44]) && !hasSuffix h (32 :: v) &&
+          !(indexOf h (32 :: v ++ [44])).isSome then h ++ [44, 32] ++ v
+  else h
+
+/-- ctx.go `Vary(fields...)` = `Append("Vary", fields...)` -/
+def appendAll (h : Bytes) (vs : List Bytes) : Bytes := vs.foldl appendOne h
+
+/-- The returned handler, between an earlier middleware that left `q.priorVary` in the response and
+    a downstream handler that calls `c.Vary(q.afterVary...)`. -/
 def handle (bt : Built) (q : Request) : Response :=
   let o := toLower q.origin
-  if q.skip then { next := true, status204 := false }
+  if skipped bt.cfg q then
+    { next := true, status204 := false, vary := appendAll q.priorVary q.afterVary }
   else if o = [] then
-    { next := true, status204 := false, vary := if bt.allowAll then [] else [vOrigin] }
+    { next := true, status204 := false,
+      vary := appendAll (if bt.allowAll then q.priorVary else appendOne q.priorVary vOrigin) q.afterVary }
   else if q.method = OPTIONS ∧ q.acrMethod = [] then
-    { next := true, status204 := false, vary := [vOrigin] }
+    { next := true, status204 := false, vary := appendAll (appendOne q.priorVary vOrigin) q.afterVary }
   else
-    let allow := allowOrigin bt o
-    if q.method ≠ OPTIONS then
-      { next := true, status204 := false, vary := if bt.allowAll then [] else [vOrigin],
-        acao := (simpleAcao bt.cfg allow).1, acac := (simpleAcao bt.cfg allow).2,
-        maxAge := simpleMaxAge bt.cfg, expose := simpleExpose bt.cfg }
-    else
-      let pn := bt.cfg.privateNetwork && q.acrPrivate = b "true"
-      { next := false, status204 := true,
-        vary := [vACRM, vACRH] ++ (if pn then [vACRPN] else []) ++ [vOrigin],
-        privateNet := pn,
-        acao := (simpleAcao bt.cfg allow).1, acac := (simpleAcao bt.cfg allow).2,
-        maxAge := simpleMaxAge bt.cfg, expose := simpleExpose bt.cfg,
-        allowMethods := if bt.cfg.allowMethods.isEmpty then none
-                        else some (join bt.cfg.allowMethods (b ", ")),
-        allowHeaders := if bt.cfg.allowHeaders.isEmpty then
-                          (if q.acrHeaders = [] then none else some q.acrHeaders)
-                        else some (join bt.cfg.allowHeaders (b ", ")) }
+    match allowOrigin bt o with
+    | none => { next := false, status204 := false, panicked := true, vary := q.priorVary }
+    | some allow =>
+      if q.method ≠ OPTIONS then
+        { next := true, status204 := false,
+          vary := appendAll (if bt.allowAll then q.priorVary else appendOne q.priorVary vOrigin) q.afterVary,
+          acao := (simpleAcao bt.cfg allow).1, acac := (simpleAcao bt.cfg allow).2,
+          maxAge := simpleMaxAge bt.cfg, expose := simpleExpose bt.cfg }
+      else
+        let pn := bt.cfg.privateNetwork && q.acrPrivate = b "true"
+        { next := false, status204 := true,
+          vary := appendOne (appendAll q.priorVary ([vACRM, vACRH] ++ (if pn then [vACRPN] else []))) vOrigin,
+          privateNet := pn,
+          acao := (simpleAcao bt.cfg allow).1, acac := (simpleAcao bt.cfg allow).2,
+          maxAge := simpleMaxAge bt.cfg, expose := simpleExpose bt.cfg,
+          allowMethods := if bt.cfg.allowMethods.isEmpty then none
+                          else some (join bt.cfg.allowMethods (b ", ")),
+          allowHeaders := if bt.cfg.allowHeaders.isEmpty then
+                            (if q.acrHeaders = [] then none else some q.acrHeaders)
+                          else some (join bt.cfg.allowHeaders (b ", ")) }
 
 end C19
